@@ -18,6 +18,7 @@ CONTENT = {
     "stemorder": ["a.cmake", "a-b.cmake"],
     "cmakeinname": ["a.cmake", "a.cmake-3.cmake"],     # '.cmake' occurs in front of the real extension
     "dotfile": [".defaults.cmake"],
+    "upperonly": ["B.CMake", "n.txt"],      # the only CMake file has a mixed-case extension
     "templates": ["a.cmake", "Pkg.cmake.in", "gcc.cmake.orig", "b.cmake_"],    # '.cmake' is not the extension: no CMake files
     "formfeed": ["a.cmake", "ff.cmake"],       # ff.cmake's doccomment holds FF and LS characters
     "indexfile": ["a.cmake", "index.cmake"],    # its page has the path of the directory index (known finding K4)
